@@ -6,6 +6,8 @@ from sa import selftest
 import multiprocessing as mp
 props = sys.argv[1:] or ['C%02d' % i for i in range(1, 21)]
 names = [n for n in selftest.AUTO_TWINS if n not in ('auto-reformat', 'auto-rename-locals')] if os.environ.get('NEW_ONLY') else list(selftest.AUTO_TWINS)
+if os.environ.get('ONLY'):
+    names = os.environ['ONLY'].split(',')
 def job(a):
     prop, name = a
     base = selftest._violations('/repo', prop)
